@@ -22,6 +22,7 @@ INT_BOUNDS = {
 }
 
 STD_ENUMS = {
+    'DropBehavior': ['Rollback', 'Commit', 'Ignore', 'Panic'],
     'Option': ['None', 'Some'], 'Result': ['Ok', 'Err'], 'Poll': ['Ready', 'Pending'],
     'ControlFlow': ['Continue', 'Break'], 'Entry': ['Occupied', 'Vacant'], 'Cow': ['Borrowed', 'Owned'],
     'Ordering': ['Less', 'Equal', 'Greater'],
